@@ -140,6 +140,15 @@ def check(ctx):
     check_order_impls(ctx, "R15.4", TR + "TestResults", "TestResults", "total_result", False,
                       keys={"cmp": "TestResults/cmp-by-total", "partial_cmp": "TestResults/partial_cmp-by-total"})
     f = ctx.fn("<ec_core::test_results::TestResults<R> as std::convert::From<I>>::from")
+    f_iter = ctx.fn("<ec_core::test_results::TestResults<R> as std::iter::FromIterator<V>>::from_iter")
+    FWD = ("Into::into", "From::from", "FromIterator::from_iter", "Iterator::collect")
+
+    def forwards(fn):
+        """the conversion hands its argument, untouched, to its sibling (`values.into()` / `Self::from(values)` / `Self::from_iter(values)`)"""
+        qs = return_paths(ctx.paths(fn))
+        return len(qs) == 1 and len([p for p in ctx.paths(fn) if p.end != "unreachable"]) == 1 and match(qs[0].ret, Call(FWD, Param(1), nargs=1)) and len(qs[0].calls()) == 1
+    if forwards(f) and not forwards(f_iter):
+        f, f_iter = f_iter, f           # the two conversions may delegate either way round: one builds, the other forwards
     ps = return_paths(ctx.paths(f))
     into = lambda e: e[0] == "fnitem" and path_ends(e[1], "Into::into") or (e[0] == "fnitem" and path_ends(e[1], "From::from"))
     res_pat = Bind("results", Call("Iterator::collect", Call("Iterator::map", Call("IntoIterator::into_iter", Param(1), nargs=1), into, nargs=2), nargs=1))
@@ -175,10 +184,9 @@ def check(ctx):
     extra = [c for p in (ctx.paths(f) if loop_form else ps) for c in p.calls() if not callee_is(c, *allowed)]
     ctx.check(not extra, "R15.4", "TestResults/from-no-reordering-adaptor", "only into_iter/map/collect/iter/sum are called", f.at(),
               bad_detail="unexpected calls: " + ", ".join(short(c, 3) for c in extra))
-    f = ctx.fn("<ec_core::test_results::TestResults<R> as std::iter::FromIterator<V>>::from_iter")
-    ps = return_paths(ctx.paths(f))
-    ctx.check(len(ps) == 1 and match(ps[0].ret, Call(("Into::into", "From::from"), Param(1), nargs=1)) and len(ps[0].calls()) == 1,
-              "R15.4", "TestResults/from_iter-forwards", short(ps[0].ret), f.at())
+    ps = return_paths(ctx.paths(f_iter))
+    ctx.check(forwards(f_iter), "R15.4", "TestResults/from_iter-forwards", short(ps[0].ret) if ps else "-", f_iter.at(),
+              bad_detail="one of From::from / FromIterator::from_iter must build the value and the other hand its argument on unchanged; extracted " + "; ".join(short(p.ret, 6) for p in ps))
     # Sum impls
     sums = [fn for fn in ctx.trait_impl_fns("std::iter::Sum::sum") if fn.id.startswith("<ec_core::test_results::")]
     ctx.floor("R15.4", len(sums), 6, "Sum impls for Score/Error")
@@ -188,16 +196,16 @@ def check(ctx):
         good = False
         desc = short(r, 6) if r else "-"
         if r is not None:
-            if match(r, Agg(ANY, Call("Iterator::sum", Param(1), nargs=1))) and r[1] == "adt" and len(r[3]) == 1:
+            if match(r, Agg(ANY, Call(SUMS, Param(1), nargs=1))) and r[1] == "adt" and len(r[3]) == 1:
                 good = True       # Self(iter.sum())
-            elif match(r, Call("Iterator::sum", Call("Iterator::map", Param(1), ANY, nargs=2), nargs=1)):
+            elif match(r, Call(SUMS, Call("Iterator::map", Param(1), ANY, nargs=2), nargs=1)):
                 clo = r[3][0][3][1]
                 good = clo[0] == "agg" and clo[1] == "closure" and check_payload_closure(ctx, clo[2])
-            elif r[0] == "agg" and r[1] == "adt" and len(r[3]) == 1 and match(r[3][0], Call("Iterator::sum", Call("Iterator::map", Param(1), ANY, nargs=2), nargs=1)):
+            elif r[0] == "agg" and r[1] == "adt" and len(r[3]) == 1 and match(r[3][0], Call(SUMS, Call("Iterator::map", Param(1), ANY, nargs=2), nargs=1)):
                 # Self(iter.map(|Self(x)| x).sum()): the payloads are summed and wrapped again
                 clo = r[3][0][3][0][3][1]
                 good = clo[0] == "agg" and clo[1] == "closure" and check_payload_closure(ctx, clo[2])
-            extra = [c for c in ps[0].calls() if not callee_is(c, "Iterator::sum", "Iterator::map")]
+            extra = [c for c in ps[0].calls() if not callee_is(c, "Iterator::sum", "Sum::sum", "Iterator::map")]
             good = good and not extra
         ctx.check(good, "R15.4", "Sum/" + fn.id.split(" as ")[0].lstrip("<").replace("ec_core::test_results::", "") + "/" + fn.id.split("Sum<")[-1].split(">>")[0][:40],
                   desc, fn.at(), bad_detail="Sum impl is not Self(iter.sum()) / iter.map(|s| payload).sum(): " + desc)
